@@ -6,6 +6,7 @@ Run-time contract on the REAL prover.sat.solve_cnf (each call under a wall-clock
   clauses by resolution on a literal occurring with opposite signs, and the last one is empty (own checker);
   the verdict agrees with exhaustive search.
 Also tseitin.encode on small propositional formulas: accepted theorem, CNF equisatisfiable."""
+import os
 import itertools
 import random
 import signal
@@ -58,8 +59,8 @@ def check_trace(cnf, proofs):
 
 def run(tier='quick', seed=0):
     t0 = time.time()
-    if '/repo' not in sys.path:
-        sys.path.insert(0, '/repo')
+    if os.environ.get('HOLPY_REPO', '/repo') not in sys.path:
+        sys.path.insert(0, os.environ.get('HOLPY_REPO', '/repo'))
     from prover import sat
     rng = random.Random(seed)
     violations = []
